@@ -32,16 +32,44 @@ pub fn category_types() -> Vec<(&'static str, Ty)> {
         ("unresolved", leaf("Nope")),
         ("qualified-pfd", leaf("android.os.ParcelFileDescriptor")),
         ("array-of-parcelable", Ty::array(leaf("Par"))),
+        // a qualified name that equals a *qualified* forward declaration stays unresolved
+        ("qualified-declared-name", leaf("a.b.Payload")),
     ]
 }
 
 const DIRS: [Option<&str>; 4] = [None, Some("in"), Some("out"), Some("inout")];
 
 pub fn support() -> Vec<ProjFile> {
+    // a "mirror" file uses the same simple names for items of other kinds (imports and
+    // forward declarations are per file: nothing of it may leak into the observed file)
+    let mut mirror = Item::new(ItemKind::Interface, "Mirror");
+    mirror.members.push(Member::Method(Method::new(
+        Ty::void(),
+        "m",
+        vec![
+            Arg::new(Some("in"), leaf("Itf"), Some("a")),
+            Arg::new(None, leaf("Par"), Some("b")),
+            Arg::new(Some("in"), leaf("En"), Some("c")),
+            Arg::new(None, leaf("Fw"), Some("d")),
+            Arg::new(Some("in"), leaf("Unk"), Some("e")),
+            Arg::new(Some("in"), leaf("Nope"), Some("f")),
+        ],
+    )));
+    let mut md = Document::new("z", mirror);
+    for i in ["z.Itf", "z.Par", "z.En", "z.Fw", "z.Nope"] {
+        md.imports.push(Import::new(i));
+    }
+    md.decls.push(Decl::new("Unk"));
     vec![
         ProjFile::from_doc("itf", Document::new("t", Item::new(ItemKind::Interface, "Itf"))),
         ProjFile::from_doc("par", Document::new("t", Item::new(ItemKind::Parcelable, "Par"))),
         ProjFile::from_doc("en", Document::new("t", Item::new(ItemKind::Enum, "En"))),
+        ProjFile::from_doc("z-itf", Document::new("z", Item::new(ItemKind::Parcelable, "Itf"))),
+        ProjFile::from_doc("z-par", Document::new("z", Item::new(ItemKind::Enum, "Par"))),
+        ProjFile::from_doc("z-en", Document::new("z", Item::new(ItemKind::Interface, "En"))),
+        ProjFile::from_doc("z-fw", Document::new("z", Item::new(ItemKind::Enum, "Fw"))),
+        ProjFile::from_doc("z-nope", Document::new("z", Item::new(ItemKind::Parcelable, "Nope"))),
+        ProjFile::from_doc("mirror", md),
     ]
 }
 
@@ -51,6 +79,7 @@ pub fn observed_header(item: Item) -> Document {
         d.imports.push(Import::new(i));
     }
     d.decls.push(Decl::new("Fw"));
+    d.decls.push(Decl::new("a.b.Payload"));
     d
 }
 
@@ -244,7 +273,7 @@ pub fn run(tier: Tier, seed: u64) -> i32 {
     let all = classes.iter().all(|c| stats.outcome_count(&format!("class:{c}")) > 0);
     finish(
         &stats,
-        "every ordered pair of (type category, direction) cells over 20 category representatives (all categories the statement constrains, reached through real resolution with three supporting files; every third argument annotated; also with all methods of a file sharing one name) x interface oneway x method oneway patterns, plus every cell alone and (thorough) all ordered triples of cells; the Errors located on direction keywords / at argument type starts are compared with the statement's table; distinct_nontrivial counts distinct (argument list, oneway) combinations",
+        "every ordered pair of (type category, direction) cells over 21 category representatives (all categories the statement constrains, reached through real resolution with three supporting files; every third argument annotated; also with all methods of a file sharing one name) x interface oneway x method oneway patterns, plus every cell alone and (thorough) all ordered triples of cells; the Errors located on direction keywords / at argument type starts are compared with the statement's table; distinct_nontrivial counts distinct (argument list, oneway) combinations",
         &[
             "category table transcribed from the statement; `void` arguments are excluded (statement silent)",
             "Errors are located by range: the direction keyword, or the empty range at the type's first token",
